@@ -1,0 +1,145 @@
+//go:build verif
+
+package corebgp
+
+import (
+	"errors"
+	"time"
+)
+
+// Exported shims over unexported codecs, compiled in only with the "verif"
+// build tag. They add no behaviour: each one calls the unexported function
+// it names and converts between the unexported types and mirror types.
+
+// VerifOpen mirrors openMessage. Params holds one entry per capabilities
+// optional parameter, in wire order.
+type VerifOpen struct {
+	Version  uint8
+	ASN      uint16
+	HoldTime uint16
+	BGPID    uint32
+	Params   [][]Capability
+}
+
+func verifOpenFrom(o *openMessage) *VerifOpen {
+	v := &VerifOpen{
+		Version:  o.version,
+		ASN:      o.asn,
+		HoldTime: o.holdTime,
+		BGPID:    o.bgpID,
+	}
+	for _, p := range o.optionalParams {
+		if c, ok := p.(*capabilityOptionalParam); ok {
+			v.Params = append(v.Params, c.capabilities)
+		}
+	}
+	return v
+}
+
+func (v *VerifOpen) toOpen() *openMessage {
+	o := &openMessage{
+		version:  v.Version,
+		asn:      v.ASN,
+		holdTime: v.HoldTime,
+		bgpID:    v.BGPID,
+	}
+	for _, p := range v.Params {
+		o.optionalParams = append(o.optionalParams,
+			&capabilityOptionalParam{capabilities: p})
+	}
+	return o
+}
+
+// VerifNotifFromErr extracts the notification carried by an internal
+// notificationError, and whether it is marked outbound.
+func VerifNotifFromErr(err error) (n *Notification, out bool, ok bool) {
+	var nerr *notificationError
+	if errors.As(err, &nerr) {
+		return nerr.notification, nerr.out, true
+	}
+	return nil, false, false
+}
+
+// VerifEncodeNotification calls (*Notification).encode.
+func VerifEncodeNotification(n *Notification) ([]byte, error) {
+	return n.encode()
+}
+
+// VerifDecodeNotification calls (*Notification).decode on a message body.
+func VerifDecodeNotification(body []byte) (*Notification, error) {
+	n := &Notification{}
+	err := n.decode(body)
+	if err != nil {
+		return nil, err
+	}
+	return n, nil
+}
+
+// VerifMessage is the result of messageFromBytes.
+type VerifMessage struct {
+	Nil          bool // messageFromBytes returned a nil message
+	Type         uint8
+	Open         *VerifOpen
+	Notification *Notification
+	Update       []byte
+}
+
+// VerifMessageFromBytes calls messageFromBytes.
+func VerifMessageFromBytes(body []byte, messageType uint8) (VerifMessage, error) {
+	m, err := messageFromBytes(body, messageType)
+	var v VerifMessage
+	if m == nil {
+		v.Nil = true
+		return v, err
+	}
+	v.Type = m.messageType()
+	switch m := m.(type) {
+	case *openMessage:
+		if m == nil {
+			v.Nil = true
+			return v, err
+		}
+		v.Open = verifOpenFrom(m)
+	case *Notification:
+		if m == nil {
+			v.Nil = true
+			return v, err
+		}
+		v.Notification = m
+	case updateMessage:
+		v.Update = []byte(m)
+	}
+	return v, err
+}
+
+// VerifDecodeOpen calls (*openMessage).decode on a message body.
+func VerifDecodeOpen(body []byte) (*VerifOpen, error) {
+	o := &openMessage{}
+	err := o.decode(body)
+	if err != nil {
+		return nil, err
+	}
+	return verifOpenFrom(o), nil
+}
+
+// VerifEncodeOpen calls (*openMessage).encode; the result includes the
+// message header.
+func VerifEncodeOpen(v *VerifOpen) ([]byte, error) {
+	return v.toOpen().encode()
+}
+
+// VerifValidateOpen calls (*openMessage).validate.
+func VerifValidateOpen(v *VerifOpen, localID, localAS, remoteAS uint32) error {
+	return v.toOpen().validate(localID, localAS, remoteAS)
+}
+
+// VerifNewOpen calls newOpenMessage followed by encode; the result includes
+// the message header.
+func VerifNewOpen(asn uint32, holdTime time.Duration, bgpID uint32,
+	caps []Capability) ([]byte, error) {
+	o, err := newOpenMessage(asn, holdTime, bgpID, caps)
+	if err != nil {
+		return nil, err
+	}
+	return o.encode()
+}
